@@ -158,6 +158,7 @@ type simNode struct {
 	abort   chan struct{} // closed to make parked dials fail
 	dead    bool
 	stopped bool // the node shut itself down (stateLoop returned)
+	snapReq *simSnapReq
 }
 
 var errSimAbort = errors.New("sim: dial aborted")
@@ -250,20 +251,38 @@ func (n *simNode) settle() {
 	if n.r.isClosed() && !n.stopped {
 		// stateLoop returns: the deferred release of the current role, then Raft.release
 		n.stopped = true
-		n.abortDials()
-		n.role().release()
+		n.releaseRole()
 		n.r.release()
 		n.barrier()
 		return
 	}
 	for n.r.state != n.cur && !n.r.isClosed() {
 		n.r.timer.stop()
-		n.abortDials()
-		n.role().release()
+		n.releaseRole()
 		n.cur = n.r.state
 		n.role().init()
 	}
 	n.barrier()
+}
+
+// releaseRole runs the current role's release().  leader.release waits for its
+// replication goroutines, which sit in dial: keep failing their dials until it returns
+// (a goroutine started a moment ago may reach dial only after the first abort).
+func (n *simNode) releaseRole() {
+	done := make(chan struct{})
+	go func() {
+		for {
+			select {
+			case <-done:
+				return
+			default:
+				n.abortDials()
+				time.Sleep(50 * time.Microsecond)
+			}
+		}
+	}()
+	n.role().release()
+	close(done)
 }
 
 // barrier waits until the state-machine goroutine has drained its queue.
@@ -275,6 +294,7 @@ func (n *simNode) kill() {
 		return
 	}
 	n.dead = true
+	// a snapshot goroutine still held at its gate stays there (the process is gone)
 	n.abortDials()
 	for id, repl := range n.l.repls {
 		close(repl.stopCh)
@@ -472,11 +492,125 @@ func (n *simNode) dump() string {
 	if n.c.votesNeeded < 0 {
 		votes = fmt.Sprintf("(%d)", n.c.votesNeeded)
 	}
-	return fmt.Sprintf("(mkNode_ %d %d %d %d %d [%s] %d %d %d %d %d %s %s %s %d %d %d %s %s %s %d %d %s %s%%Z %s %s)",
+	return fmt.Sprintf("(mkNode_ %d %d %d %d %d [%s] %d %d %d %d %d %s %s %s %d %d %d %s %s %s %s %d %d %s %s%%Z %s %s)",
 		r.cid, r.nid, r.term, r.votedFor, prev, strings.Join(es, ";"), n.flushedIndex(), r.lastLogIndex, r.lastLogTerm,
 		r.snaps.index, r.snaps.term, coqConfig(snapcfg), coqConfig(r.configs.Committed), coqConfig(r.configs.Latest),
-		uint8(r.state), r.leader, r.commitIndex, coqBool(r.timer.active), coqBool(r.snapTakenCh != nil), coqBool(r.isClosed()),
+		uint8(r.state), r.leader, r.commitIndex, coqBool(r.timer.active), coqBool(r.snapTakenCh != nil), n.dumpSnapReq(), coqBool(r.isClosed()),
 		r.fsm.index, r.fsm.term, coqBool(n.f.electionAborted), votes, coqBool(n.c.transfer), n.dumpLeader())
+}
+
+// ---- snapshot task in flight (the goroutine's arguments are mirrored by the harness) ----
+
+type simSnapReq struct {
+	tid    int
+	index  uint64 // fsm.index when the request reached the state machine
+	term   uint64
+	config Config
+	gate   chan struct{}
+	ran    bool
+	// what the state machine must have answered (its reply is inside the goroutine until it
+	// runs); when this prediction is wrong the ESnapRun case shows the disagreement
+	expect string
+}
+
+func (n *simNode) dumpSnapReq() string {
+	q := n.snapReq
+	if q == nil || n.r.snapTakenCh == nil {
+		return "None"
+	}
+	done := q.expect
+	if q.ran {
+		select {
+		case t := <-n.r.snapTakenCh:
+			n.r.snapTakenCh <- t
+			switch {
+			case t.err == ErrNoUpdates:
+				done = "(SnapFail 1)"
+			case t.err == ErrSnapshotThreshold:
+				done = "(SnapFail 2)"
+			case t.err != nil:
+				done = "(SnapFail 3)"
+			default:
+				done = fmt.Sprintf("(SnapOk %d)", t.meta.index)
+			}
+		default:
+		}
+	}
+	return fmt.Sprintf("(Some (mkSnapReqSt %d %d %d %s %s))", q.tid, q.index, q.term, coqConfig(q.config), done)
+}
+
+var (
+	simGateMu   sync.Mutex
+	simNextGate chan struct{}
+	simArrived  chan struct{}
+)
+
+func init() {
+	VerifHook = func(name string) {
+		if name != "snapshot.start" {
+			return
+		}
+		simGateMu.Lock()
+		g, a := simNextGate, simArrived
+		simNextGate, simArrived = nil, nil
+		simGateMu.Unlock()
+		if g != nil {
+			close(a)
+			<-g
+		}
+	}
+}
+
+// takeSnapshot is the taskCh case for a takeSnapshot task; the goroutine it
+// starts is held at its first statement until snapRun.
+func (n *simNode) takeSnapshot(t takeSnapshot, tid int) {
+	r := n.r
+	busy := r.snapTakenCh != nil
+	gate, arrived := make(chan struct{}), make(chan struct{})
+	if !busy {
+		simGateMu.Lock()
+		simNextGate, simArrived = gate, arrived
+		simGateMu.Unlock()
+		n.snapReq = &simSnapReq{tid: tid, config: r.configs.Committed.clone(), gate: gate}
+	}
+	r.executeTask(t)
+	if !busy {
+		n.barrier() // the state machine has answered the request
+		n.snapReq.index, n.snapReq.term = r.fsm.index, r.fsm.term
+		switch {
+		case r.fsm.index == r.snaps.index:
+			n.snapReq.expect = "(SnapFail 1)"
+		case r.fsm.index < r.snaps.index+t.threshold:
+			n.snapReq.expect = "(SnapFail 2)"
+		default:
+			n.snapReq.expect = "SnapPending"
+		}
+	}
+	if r.state == Follower && n.f.electionAborted {
+		n.f.resetTimer()
+	}
+	if !busy {
+		<-arrived
+	}
+}
+
+// snapRun lets the snapshot goroutine run to completion.
+func (n *simNode) snapRun() {
+	q := n.snapReq
+	if q == nil || q.ran {
+		return
+	}
+	q.ran = true
+	close(q.gate)
+	for len(n.r.snapTakenCh) == 0 {
+		time.Sleep(20 * time.Microsecond)
+	}
+}
+
+func (n *simNode) snapTaken() {
+	t := <-n.r.snapTakenCh
+	n.r.onSnapshotTaken(t)
+	n.snapReq = nil
 }
 
 // bootstrapDir writes the bootstrap entry (1,1) into a fresh storage directory,
